@@ -165,21 +165,7 @@ def build_cases(tier):
     return cases
 
 
-def name_catalogue():
-    import keyword
-    import pydantic
-    base = set(keyword.kwlist) | set(keyword.softkwlist) | {a for a in dir(pydantic.BaseModel) if not a.startswith("_")}
-    base |= {"name", "value", "mro", "self", "cls", "typename", "id", "type", "Any", "List", "Optional", "Field", "BaseModel", "Enum", "str", "int", "None_"}
-    out = set()
-    for n in base:
-        out.add(n)
-        if "_" in n.strip("_"):
-            parts = n.split("_")
-            out.add(parts[0] + "".join(p.capitalize() for p in parts[1:]))   # model_dump -> modelDump
-            out.add("".join(p.capitalize() for p in parts))                   # ModelDump
-        else:
-            out.add(n.capitalize() if n.islower() else n.lower())
-    return sorted(x for x in out if re.fullmatch(r"[A-Za-z][A-Za-z0-9_]*", x))
+from mc.corpus2 import name_catalogue  # noqa: E402
 
 
 def evaluate(case):
